@@ -13,8 +13,14 @@ func init() { register("C12", "other", checkC12) }
 
 func checkC12(c *Ctx) {
 	prog := c.Prog(load.AMD64)
-	c12BIP66(c, prog)
+	c12ASN1Signature(c, prog)
+	c12BytesToScalar(c, prog)
 	c12Compact(c, prog)
+	c12BIP66(c, prog)
+	c12Builders(c, prog)
+	c12ASN1PublicKey(c, prog)
+	c.R.Explanation = "Parsers and builders are abstractly interpreted against a specification of cryptobyte's strict-DER reader (element kind K read from s: succeeds iff K_ok(s), yields K_val(s), leaves rest(K,s)). ParseASN1Signature accepts exactly: one SEQUENCE, nothing after it, two INTEGERs read in the minimal non-negative []byte form, nothing after them, each converted by bytesToCanonicalScalar (validated for every length 0..32 and > 32: zero-extension on the left, canonical decode) and non-zero. The compact parsers accept exactly 64/65-byte strings with canonical non-zero halves and return d[0:32], d[32:64], d[64]. The BIP-66 predicate, extracted from the control-flow graph as a propositional formula over 18 atoms, is equivalent to the BIP's reference predicate (14 rejection rules); every data[i] in it and every slice / slice-to-array conversion in the parsers is proven in bounds from the dominating checks by linear entailment (Fourier-Motzkin). Builders emit SEQUENCE{INTEGER(OS2IP(Bytes r)), INTEGER(OS2IP(Bytes s))}, Bytes(r)||Bytes(s)[||v] and SEQUENCE{SEQUENCE{1.2.840.10045.2.1, 1.3.132.0.10}, BIT STRING(uncompressed bytes)}, i.e. what the parsers accept. ParseASN1PublicKey accepts exactly the strict SubjectPublicKeyInfo structure with both OIDs, a BIT STRING without unused bits, and a valid SEC 1 key (C10/C06); no panic is reachable in any parser."
+	c.R.Assumptions = []string{"x/crypto v0.11.0 cryptobyte reads strict DER as documented (definite minimal lengths; ReadASN1Integer into []byte = minimal non-negative magnitude; BIT STRING padding bits zero); AddASN1BigInt emits the minimal INTEGER", "C02 (canonical scalar decode), C10 / C06 (NewPublicKey)", "panics inside the standard library / x/crypto are not analysed"}
 }
 
 // bip66Spec is the BIP-66 reference predicate (IsValidSignatureEncoding of the BIP) over a symbolic byte string.
@@ -148,4 +154,281 @@ func c12Compact(c *Ctx, prog *load.Program) {
 		c.R.Decide(fmsg == "", "C12-6", key+"/index-safety", pos, fmt.Sprintf("%d bounds checks proven from the length test", n), "a slice / conversion may be out of range at "+fpos+": "+fmsg)
 	}
 	c.R.Floor("C12-2", 4)
+}
+
+func asn1Set() *models.Set { return protoSet(nil).Merge(models.ASN1()) }
+
+// b2sModel replaces bytesToCanonicalScalar by its specification (validated per length by c12BytesToScalar).
+func b2sModel(set *models.Set) {
+	set.Intercepts[models.SececPkg+".bytesToCanonicalScalar"] = func(ex *absint.Exec, cc *absint.CallCtx) (absint.Val, bool) {
+		b := ex.SliceBytes(cc.St, cc.Args[0])
+		ok := sym.App(sym.Bool, "b2s_ok", b)
+		sc := ex.AllocAbs(models.ScalarType, models.Mod, "Scalar", sym.App(sym.Fn, "b2s", b))
+		errv := &absint.Iface{Opaque: sym.Sym(sym.Any, "err:b2s"), NonNil: true}
+		return absint.Tuple{absint.MergeVal(ok, sc, absint.Nil{}), absint.MergeVal(ok, &absint.Iface{}, errv)}, true
+	}
+}
+
+// derSeq describes the reads of SEQUENCE { ... } from a top-level string.
+type derReader struct{ cur *sym.Term }
+
+func (d *derReader) tlv(tag int64) (ok, body *sym.Term) {
+	t := sym.ConstI(tag)
+	ok = sym.App(sym.Bool, "der_ok", t, d.cur)
+	body = sym.App(sym.Bytes, "der_body", t, d.cur)
+	d.cur = sym.App(sym.Bytes, "der_rest", t, d.cur)
+	return
+}
+func (d *derReader) integer() (ok, val *sym.Term) {
+	ok = sym.App(sym.Bool, "der_int_ok", d.cur)
+	val = sym.App(sym.Bytes, "der_int_bytes", d.cur)
+	d.cur = sym.App(sym.Bytes, "der_rest", sym.ConstI(2), d.cur)
+	return
+}
+func (d *derReader) oid() (ok, val *sym.Term) {
+	ok = sym.App(sym.Bool, "der_oid_ok", d.cur)
+	val = sym.App(sym.Any, "der_oid", d.cur)
+	d.cur = sym.App(sym.Bytes, "der_rest", sym.ConstI(6), d.cur)
+	return
+}
+func (d *derReader) bits() (ok, bytes, bitlen *sym.Term) {
+	ok = sym.App(sym.Bool, "der_bits_ok", d.cur)
+	bytes = sym.App(sym.Bytes, "der_bits_bytes", d.cur)
+	bitlen = sym.App(sym.Int, "der_bits_len", d.cur)
+	d.cur = sym.App(sym.Bytes, "der_rest", sym.ConstI(3), d.cur)
+	return
+}
+func (d *derReader) empty() *sym.Term { return sym.App(sym.Bool, "is_empty", d.cur) }
+
+func c12ASN1Signature(c *Ctx, prog *load.Program) {
+	set := asn1Set()
+	b2sModel(set)
+	name := models.SececPkg + ".ParseASN1Signature"
+	r := RunFn(prog, set, name, &RunOpts{Args: named("d")})
+	if r.Fn == nil {
+		c.R.Unknown("C12-1", "ParseASN1Signature", "", "function not found")
+		return
+	}
+	pos := PosOf(prog, r.Fn)
+	if p := runComplete(r); p != "" {
+		c.R.Unknown("C12-1", "ParseASN1Signature", pos, p)
+		return
+	}
+	for _, pn := range r.Ex.Panics {
+		c.R.Fail("C12-6", "ParseASN1Signature/no-panic", PosStr(prog, pn.Pos), fmt.Sprintf("a panic (%s) is reachable when {%s}", pn.Msg, GuardString(pn.Guard)))
+	}
+	acc, prob := acceptFormula(r, 2)
+	if prob != "" {
+		c.R.Unknown("C12-1", "ParseASN1Signature", pos, prob)
+		return
+	}
+	top := &derReader{cur: symBytes("d")}
+	okSeq, body := top.tlv(0x30)
+	in := &derReader{cur: body}
+	okR, rB := in.integer()
+	okS, sB := in.integer()
+	rr, ss := sym.App(sym.Fn, "b2s", rB), sym.App(sym.Fn, "b2s", sB)
+	spec := fAnd(FTerm(okSeq), FTerm(top.empty()), FTerm(okR), FTerm(okS), FTerm(in.empty()),
+		FTerm(sym.App(sym.Bool, "b2s_ok", rB)), fNot(FTerm(models.RingEq(rr, fnZero))),
+		FTerm(sym.App(sym.Bool, "b2s_ok", sB)), fNot(FTerm(models.RingEq(ss, fnZero))))
+	ok, detail := Equivalent(acc, spec)
+	c.R.Decide(ok, "C12-1", "ParseASN1Signature/accept", pos, "accepts exactly: one SEQUENCE, nothing after it, two minimal non-negative INTEGERs, nothing after them, each a canonical non-zero scalar of 1..32 bytes ("+detail+")", "accept set differs from strict DER SEQUENCE{INTEGER r, INTEGER s}: "+detail)
+	vok, vdetail := true, ""
+	for _, e := range r.Ex.Returns {
+		e := e
+		res := e.St.Resolve(e.Results).(absint.Tuple)
+		o, dd := CheckUnder(fAnd(FGuard(e.Guard), acc), []absint.Val{res[0], res[1]}, nil, func(asg map[*sym.Term]bool) string {
+			gr := loadPtrTerm(r.Ex, e.St, resolveChoice(res[0], asg))
+			gs := loadPtrTerm(r.Ex, e.St, resolveChoice(res[1], asg))
+			if gr == nil || gs == nil || !sym.Equal(ResolveIte(gr, asg), rr) || !sym.Equal(ResolveIte(gs, asg), ss) {
+				return "(r, s) = (" + absint.ValString(gr) + ", " + absint.ValString(gs) + ")"
+			}
+			return ""
+		})
+		if !o && dd != "the condition is unsatisfiable (vacuous)" {
+			vok, vdetail = false, dd
+		}
+	}
+	c.R.Decide(vok, "C12-1", "ParseASN1Signature/value", pos, "r, s are the scalars of the first and second INTEGER", "parsed values differ: "+vdetail)
+	// control
+	noTrail := fAnd(FTerm(okSeq), FTerm(okR), FTerm(okS), FTerm(in.empty()), FTerm(sym.App(sym.Bool, "b2s_ok", rB)), fNot(FTerm(models.RingEq(rr, fnZero))), FTerm(sym.App(sym.Bool, "b2s_ok", sB)), fNot(FTerm(models.RingEq(ss, fnZero))))
+	okc, _ := Equivalent(acc, noTrail)
+	c.R.ControlResult("C12-1", "trailing-bytes-allowed", "a grammar that allows bytes after the SEQUENCE must not be equivalent", !okc)
+	c.R.Floor("C12-1", 2)
+}
+
+// c12BytesToScalar validates the specification of bytesToCanonicalScalar for every length.
+func c12BytesToScalar(c *Ctx, prog *load.Program) {
+	name := models.SececPkg + ".bytesToCanonicalScalar"
+	fn := absint.FindFunc(prog.SSA, name)
+	if fn == nil {
+		c.R.Unknown("C12-1", "bytesToCanonicalScalar", "", "function not found")
+		return
+	}
+	pos := PosOf(prog, fn)
+	good := true
+	detail := ""
+	for L := 0; L <= 33; L++ {
+		b := absint.SymBytes("b", L, 0)
+		r := RunFn(prog, protoSet(nil), name, &RunOpts{Args: named("b"), Pre: func(ex *absint.Exec, st *absint.State, args []absint.Val) {
+			if L == 33 {
+				st.Assume(absint.Lt(sym.ConstI(32), symLen("b")), true, "more than 32 bytes")
+				return
+			}
+			args[0] = ex.BytesToSlice(st, b, "b")
+		}})
+		if p := runComplete(r); p != "" || len(r.Ex.Panics) > 0 {
+			good, detail = false, fmt.Sprintf("length %d: %s %v", L, p, len(r.Ex.Panics))
+			break
+		}
+		acc, prob := acceptFormula(r, 1)
+		if prob != "" {
+			good, detail = false, prob
+			break
+		}
+		if L == 0 || L == 33 {
+			if ok, d := Equivalent(fAnd(acc, FTerm(absint.Lt(sym.ConstI(32), symLen("b")))), fConst(false)); L == 33 && !ok {
+				good, detail = false, "a string longer than 32 bytes can be accepted: "+d
+			}
+			if ok, d := Equivalent(acc, fConst(false)); L == 0 && !ok {
+				good, detail = false, "the empty string can be accepted: "+d
+			}
+			continue
+		}
+		padded := absint.CatBytes(sym.ConstStr(sym.Bytes, string(make([]byte, 32-L))), b)
+		want := models.OfBytes(sym.Fn, padded)
+		ok, d := Equivalent(acc, fNot(FTerm(models.GeModulus(sym.Fn, padded))))
+		if !ok {
+			good, detail = false, fmt.Sprintf("length %d: accept set differs: %s", L, d)
+			break
+		}
+		for _, e := range r.Ex.Returns {
+			if p, isP := exitResult(e, 0).(*absint.Ptr); isP {
+				if t := loadPtrTerm(r.Ex, e.St, p); t == nil || !sym.Equal(t, want) {
+					good, detail = false, fmt.Sprintf("length %d: value is %s, expected the big-endian value of the zero-extended string", L, absint.ValString(t))
+				}
+			}
+		}
+		if n, fpos, fmsg := checkBounds(r); fmsg != "" {
+			good, detail = false, fmt.Sprintf("length %d: %s %s (%d)", L, fpos, fmsg, n)
+		}
+	}
+	c.R.Decide(good, "C12-1", "bytesToCanonicalScalar", pos, "for every length: 1..32 bytes are zero-extended on the left and decoded canonically (rejected iff >= n); 0 and > 32 bytes are rejected", detail)
+}
+
+func c12ASN1PublicKey(c *Ctx, prog *load.Program) {
+	set := asn1Set()
+	set.Intercepts[models.SececPkg+".NewPublicKey"] = func(ex *absint.Exec, cc *absint.CallCtx) (absint.Val, bool) {
+		b := ex.SliceBytes(cc.St, cc.Args[0])
+		ok := sym.App(sym.Bool, "pk_ok", b)
+		pk := newPublicKeyObj(ex, cc.St, prog, sym.App(sym.Point, "pk_point", b))
+		errv := &absint.Iface{Opaque: sym.Sym(sym.Any, "err:pk"), NonNil: true}
+		return absint.Tuple{absint.MergeVal(ok, pk, absint.Nil{}), absint.MergeVal(ok, &absint.Iface{}, errv)}, true
+	}
+	name := models.SececPkg + ".ParseASN1PublicKey"
+	r := RunFn(prog, set, name, &RunOpts{Args: named("d")})
+	if r.Fn == nil {
+		c.R.Unknown("C12-5", "ParseASN1PublicKey", "", "function not found")
+		return
+	}
+	pos := PosOf(prog, r.Fn)
+	if p := runComplete(r); p != "" {
+		c.R.Unknown("C12-5", "ParseASN1PublicKey", pos, p)
+		return
+	}
+	for _, pn := range r.Ex.Panics {
+		c.R.Fail("C12-6", "ParseASN1PublicKey/no-panic", PosStr(prog, pn.Pos), fmt.Sprintf("a panic (%s) is reachable when {%s}", pn.Msg, GuardString(pn.Guard)))
+	}
+	acc, prob := acceptFormula(r, 1)
+	if prob != "" {
+		c.R.Unknown("C12-5", "ParseASN1PublicKey", pos, prob)
+		return
+	}
+	top := &derReader{cur: symBytes("d")}
+	okSeq, body := top.tlv(0x30)
+	in := &derReader{cur: body}
+	okAlg, algBody := in.tlv(0x30)
+	okBits, bitBytes, bitLen := in.bits()
+	alg := &derReader{cur: algBody}
+	okO1, o1 := alg.oid()
+	okO2, o2 := alg.oid()
+	whole := sym.Eq(absint.IntOp("mod", 64, bitLen, sym.ConstI(8)), sym.ConstI(0))
+	structure := fAnd(FTerm(okSeq), FTerm(top.empty()), FTerm(okAlg), FTerm(okBits), FTerm(in.empty()), FTerm(okO1), FTerm(okO2), FTerm(alg.empty()),
+		FTerm(sym.App(sym.Bool, "oid_eq", o1, sym.ConstStr(sym.Any, "1.2.840.10045.2.1"))), FTerm(sym.App(sym.Bool, "oid_eq", o2, sym.ConstStr(sym.Any, "1.3.132.0.10"))))
+	spec := fAnd(structure, FTerm(whole), FTerm(sym.App(sym.Bool, "pk_ok", bitBytes)))
+	ok, detail := Equivalent(acc, spec)
+	if ok {
+		c.R.OK("C12-5", "ParseASN1PublicKey/accept", pos, "accepts exactly SEQUENCE{SEQUENCE{OID ecPublicKey, OID secp256k1}, BIT STRING with no unused bits holding a valid SEC 1 key}, nothing trailing at any level ("+detail+")")
+	} else {
+		// is the difference precisely the missing unused-bits test?  (diagnostic only)
+		loose := fAnd(structure, FTerm(sym.App(sym.Bool, "pk_ok", sym.App(sym.Bytes, "rightalign", bitBytes, bitLen))))
+		if okl, _ := Equivalent(acc, loose); okl {
+			c.R.Fail("C12-5", "bitstring-unused-bits/ParseASN1PublicKey", pos, "the BIT STRING is used as an octet string (RightAlign) without testing that it has no unused bits: a key shifted left by u = 1..7 bits with 'unused bits = u' is accepted and parses to the same key, so a second encoding of the key exists and re-encoding does not reproduce the input")
+		} else {
+			c.R.Fail("C12-5", "ParseASN1PublicKey/accept", pos, "accept set differs from the strict SubjectPublicKeyInfo grammar: "+detail)
+		}
+	}
+	c.R.Floor("C12-5", 1)
+}
+
+// c12Builders: the builders emit exactly what the parsers accept.
+func c12Builders(c *Ctx, prog *load.Program) {
+	set := asn1Set()
+	rS, sS := symFn("*r"), symFn("*s")
+	rb, sb := models.ToBytes(sym.Fn, rS), models.ToBytes(sym.Fn, sS)
+	type bc struct {
+		name string
+		args []string
+		want *sym.Term
+	}
+	seq := func(parts ...*sym.Term) *sym.Term { return sym.App(sym.Bytes, "der_tlv", sym.ConstI(0x30), absint.CatBytes(parts...)) }
+	derInt := func(b *sym.Term) *sym.Term { return sym.App(sym.Bytes, "der_int", sym.App(sym.Int, "os2ip", b)) }
+	vT := sym.Sym(sym.Int, "v")
+	vb := sym.App(sym.Bytes, "byte", vT)
+	sym.SetBytesLen(vb, 1)
+	cases := []bc{
+		{"BuildASN1Signature", []string{"r", "s"}, seq(derInt(rb), derInt(sb))},
+		{"BuildCompactSignature", []string{"r", "s"}, absint.CatBytes(rb, sb)},
+		{"BuildCompactRecoverableSignature", []string{"r", "s", "v"}, absint.CatBytes(rb, sb, vb)},
+	}
+	for _, b := range cases {
+		r := RunFn(prog, set, models.SececPkg+"."+b.name, &RunOpts{Args: named(b.args...)})
+		key := "build/" + b.name
+		if r.Fn == nil {
+			c.R.Unknown("C12-4", key, "", "function not found")
+			continue
+		}
+		pos := PosOf(prog, r.Fn)
+		if p := runComplete(r); p != "" || r.Out.Ret == nil {
+			c.R.Unknown("C12-4", key, pos, p+" (or no return)")
+			continue
+		}
+		if len(r.Ex.Panics) > 0 {
+			c.R.Fail("C12-4", key, PosStr(prog, r.Ex.Panics[0].Pos), "a panic is reachable: "+r.Ex.Panics[0].Msg)
+			continue
+		}
+		got := sym.Canon(r.Ex.SliceBytes(r.Final(), r.Result(0)))
+		c.R.Decide(sym.Equal(got, b.want), "C12-4", key, pos, "emits "+b.want.String(), "builder output is "+got.String()+", expected "+b.want.String())
+	}
+	// SubjectPublicKeyInfo
+	{
+		r := RunFn(prog, set, models.SececPkg+".buildASN1PublicKey", &RunOpts{Args: named("k"), Pre: func(ex *absint.Exec, st *absint.State, args []absint.Val) {
+			enc := symBytes("*k.pointBytes")
+			sym.SetBytesLen(enc, 65)
+			kp := args[0].(*absint.Ptr)
+			ib := FieldIndex(prog, models.SececPkg, "PublicKey", "pointBytes")
+			ex.StoreLeaf(st, ex.FieldPtr(kp, ib), ex.BytesToSlice(st, enc, "pointBytes"), 0)
+		}})
+		key := "build/buildASN1PublicKey"
+		pos := PosOf(prog, r.Fn)
+		if p := runComplete(r); p != "" || r.Out.Ret == nil || r.Fn == nil {
+			c.R.Unknown("C12-4", key, pos, p+" (or no return)")
+		} else {
+			got := sym.Canon(r.Ex.SliceBytes(r.Final(), r.Result(0)))
+			oid := func(s string) *sym.Term { return sym.App(sym.Bytes, "der_oid_enc", sym.ConstStr(sym.Any, s)) }
+			want := seq(seq(oid("1.2.840.10045.2.1"), oid("1.3.132.0.10")), sym.App(sym.Bytes, "der_bitstring", symBytes("*k.pointBytes")))
+			c.R.Decide(sym.Equal(got, want), "C12-4", key, pos, "SEQUENCE{SEQUENCE{ecPublicKey, secp256k1}, BIT STRING(uncompressed SEC 1 bytes)}", "builder output is "+got.String())
+		}
+	}
+	c.R.Floor("C12-4", 4)
 }
